@@ -398,3 +398,80 @@ def hex2(ex, n):
     """two-digit upper-case hexadecimal numeral of 0 <= n <= 255"""
     nt = term(n, "int")
     return Sym(z3.Concat(z3.SubString(z3.StringVal(HEXDIGITS), nt / 16, 1), z3.SubString(z3.StringVal(HEXDIGITS), nt % 16, 1)), "str")
+
+
+# ----------------------------------------------------------------------------- worklist records (C09 / C17)
+
+
+@spec
+def records(ex, wl):
+    """the record list of a worklist"""
+    return wl.fields["__records__"]
+
+
+@spec
+def printable(ex, s):
+    """text without line breaks (the property quantifies over printable Latin-1 text)"""
+    if not lib.isinstance_(ex, s, _B("str")):
+        return True
+    t = term(s)
+    return mk_bool(z3.And(z3.Not(z3.Contains(t, z3.StringVal("\n"))), z3.Not(z3.Contains(t, z3.StringVal("\r")))))
+
+
+@spec
+def no_sep(ex, s):
+    """a field that an independent parser reads back unchanged: no ';' and no line break"""
+    t = term(s)
+    return mk_bool(lib._no_sep(t))
+
+
+@spec
+def fmt_int(ex, x):
+    """decimal representation of an int"""
+    return lib.format_value(ex, lib.to_int(ex, x) if not ops.is_intlike(x) else x, "")
+
+
+@spec
+def fmt_num(ex, x):
+    """str() of a number as Python prints it"""
+    return lib.format_value(ex, x, "")
+
+
+@spec
+def tip_field(ex, tip):
+    """tip mask field of a record: empty for Tip.Any"""
+    m = tipmask(ex, tip)
+    c = ops.compare(ex, "==", m, -1)
+    if isinstance(c, bool):
+        return "" if c else lib.format_value(ex, m, "")
+    return Sym(z3.If(unwrap_bool(c), z3.StringVal(""), term(lib.format_value(ex, m, ""))), "str")
+
+
+@spec
+def gwl_record(ex, kind, fields):
+    """one worklist record: the record type and its fields joined by ';'"""
+    from .values import RecV
+
+    return RecV(kind, fields.concrete_items())
+
+
+@spec
+def strip_(ex, s):
+    return lib.str_method(ex, s, "strip", [], {})
+
+
+NS["strip"] = NS.pop("strip")
+
+
+@spec
+def sorted_ints(ex, xs):
+    """the ascending rearrangement of a list of ints (spec: sorting network over the concrete length)"""
+    return lib.b_sorted(ex, xs)
+
+
+@spec
+def is_integral(ex, v):
+    """a Python int or a numpy integer (not a bool)"""
+    if isinstance(v, Sym):
+        return v.ty == "int"
+    return ops.is_intlike(v) and not isinstance(v, bool)
